@@ -12,8 +12,9 @@ structure Good (cfg : Cfg) : Prop where
   waits : cfg.waitOnErrs = true
   notified : ∀ s, cfg.notified s = true
   cancels : ∀ s, cfg.cancels s = true
+  failWaits : cfg.waitOnFail = true
 
-theorem good_repaired : Good Cfg.repaired := ⟨rfl, fun _ => rfl, fun _ => rfl⟩
+theorem good_repaired : Good Cfg.repaired := ⟨rfl, fun _ => rfl, fun _ => rfl, rfl⟩
 
 structure Inv (st : St) : Prop where
   errsOk : st.errsReady = some true → st.flushed = true
@@ -114,7 +115,8 @@ theorem inv_step {cfg : Cfg} (g : Good cfg) {st : St} (h : Inv st) (e : Ev) : In
           simp [St.die] at hxe
           subst hxe
           simp at hr
-      · refine ⟨by simp, by simpa using h2, by simp, by simp [hne], by simp [hne], by simp, by simp [hne]⟩
+      · simp only [g.failWaits, if_true]
+        refine ⟨by simp, by simpa using h2, by simp, by simp [hne], by simp [hne], by simp, by simp [hne]⟩
       · rename_i hp
         simp only [g.waits, if_true]
         have hc := h6 (Or.inl hp)
